@@ -14,12 +14,18 @@ META = {
                  "(delays, reordering, duplication, held messages, partitions, an equivocating Byzantine validator, a scripted "
                  "split-brain attempt) whose finalize streams, header stores and signed votes are judged inside coqc by the "
                  "agreement monitor, the hypothesis checkers (A1-A3) and the model's commit rule",
-    "level": "Partial (vote-set level): agreement, one block per round, lock invariant, finalize-needs-quorum and contiguous "
-             "finalization are proved for ALL validator sets, power distributions, vote histories, delivery schedules, Byzantine "
-             "injections (< 1/3 power) and restart points of the abstract node model, under named hypotheses A1 (C02), A2/A3 "
-             "(lock-respecting strategy), authenticity (C05), common validator set (C07) that are proved satisfiable and are "
-             "evaluated on every real run; the composition with the kernel/state-machine models of C01/C02/C05/C07/C08 is by "
-             "hypothesis, not a mechanised refinement; liveness is not claimed.",
+    "level": "Partial. Vote-set level: agreement, one block per round, lock invariant, finalize-needs-quorum and contiguous finalization "
+             "are proved for ALL validator sets, power distributions, vote histories, delivery schedules, Byzantine injections (< 1/3 power) "
+             "and restart points of the abstract node model, under named hypotheses A1 (C02), A2/A3 (lock-respecting strategy), "
+             "authenticity (C05), common validator set (C07) that are proved satisfiable and are evaluated on every real run. MIRROR "
+             "level (Properties/C03Mirror.v, mechanised composition with the mirror-kernel model and its invariants C01/C04/C07): two "
+             "mirrors each reachable by ANY history of proposed headers, votes and replayed headers from the same genesis agree on the "
+             "hash of every height both committed, and on the next validator set, by induction on the height - under A1-A3 and the "
+             "Byzantine bound stated over the signatures in their commit certificates, and hash injectivity for next validator sets; "
+             "same-round agreement needs only A1 and the bound; both hypotheses are shown necessary by witnesses (an equivocating "
+             "majority makes two mirrors commit different headers). Not mechanised: the composition with the state-machine model "
+             "(that correct validators satisfy A1-A3 is C02's theorem for A1 and a hypothesis on the strategy for A2/A3); crash/restart "
+             "in the mirror composition; liveness is not claimed.",
     "note": "Trusted: Coq kernel; translator for math.go (cross-checked by C18); the Go harness (network scheduler, "
             "lock-respecting strategy, Byzantine signer) and the reconstruction of model traces from observed votes; Go "
             "scheduling/timers. No axioms (all Print Assumptions: closed under the global context).",
@@ -232,6 +238,10 @@ def main(argv):
         c.broken = {"file": "translate", "log": tlog[-800:]}
     else:
         proved = c.prove("C03")
+        # the composition with the mirror-kernel model (C01/C04/C07 invariants): two reachable mirrors agree on every
+        # committed hash under A1-A3 and the Byzantine bound stated on the mirror's own vocabulary
+        c.translate(only=["Gen/Kernel.v"])
+        proved = c.prove("C03Mirror") and proved
 
     mark("translate+prove")
     # 3. real engines
